@@ -20,6 +20,7 @@ NS = [1, 2, 3, 5, 16]
 
 class Check(CheckBase):
     property_id = 'C09'
+    evaluations_counter = 'executions'
     level = 'exploration'
     rule = ('each execution = the real snapshot and restore of a generated tree (many small files sharing chunks, or few '
             'large files spanning many chunks) at concurrency N in {1,2,3,5,16} on a plain (executor threads) or coroutine '
